@@ -20,6 +20,7 @@ CONSTANTS Loc,       \* Loc[a] : sequence of host addresses of agent a
 Agents == {"A","B"}
 Other(a) == IF a = "A" THEN "B" ELSE "A"
 HostPrio == 9
+Tid0 == [A |-> 1, B |-> 1001]   \* transaction ids are ordinals in disjoint ranges per issuing agent
 NeedPrio(a) == ~Lite[a] \/ CheckPrio[a]          \* needsToCheckPriorityOnNominated
 VARIABLES role, gen, rgen, locals, remotes, pairs, nextId, pend, sel, nomPair, conn, nextTid,
           net, ticks, loss, dup, inj, rst,
@@ -87,7 +88,7 @@ Init ==
   /\ LET r == [a \in Agents |-> AddAllRemotes(<<>>, 0, Loc[a], PreSignal[a], 1, InitRole[a] = "controlling")] IN
        pairs = [a \in Agents |-> r[a].ps] /\ nextId = [a \in Agents |-> r[a].id]
   /\ pend = [a \in Agents |-> {}] /\ sel = [a \in Agents |-> 0] /\ nomPair = [a \in Agents |-> 0]
-  /\ conn = [a \in Agents |-> "Checking"] /\ nextTid = [a \in Agents |-> 1]
+  /\ conn = [a \in Agents |-> "Checking"] /\ nextTid = Tid0
   /\ net = EmptyBag /\ ticks = [a \in Agents |-> 0] /\ loss = 0 /\ dup = 0 /\ inj = 0 /\ rst = 0
   /\ now = 0 /\ lastRx = [a \in Agents |-> Never] /\ selStart = [a \in Agents |-> 0] /\ chkStart = [a \in Agents |-> 0]
   /\ lastTick = [a \in Agents |-> "Unknown"] /\ gath = [a \in Agents |-> "complete"]
